@@ -247,3 +247,91 @@ def rule_R22_phases(ctx, rep, config="c-lib"):
                       "derivation where there are two (ambiguity flag not set)", where=extra[0].where(), witness=[extra[0].where(), skip.where()])
     else:
         rep.ok("R22-phases", "expand_new_start_set/nullable-skip-unconditional", sample={"addition": skip.where()})
+
+
+def rule_R22_dedupe_pair(ctx, rep, config="c-lib"):
+    rep.rule("R22-dedupe-pair", "build_new_set adds a start situation under the (situation, distance) filter: at every call sit_dist_insert (X, d) whose result controls a "
+                                "call set_new_add_start_sit (Y, e), X is Y and d is e -- the filter is asked about the pair that is then added (scanner and completer "
+                                "loops are siblings)")
+    p = ctx.prog(config)
+    f = p.fn("build_new_set")
+    rep.cover(p, [f.name])
+    n = 0
+    for a in f.calls():
+        if a.callee != "set_new_add_start_sit":
+            continue
+        filt = None
+        for (c, pol) in _controlling_conditions(f, a.block.name):
+            for o in c.ops:
+                ci = f.inst(strip_int_casts(f, o))
+                if ci is not None and ci.is_call() and ci.callee == "sit_dist_insert":
+                    filt = ci
+        n += 1
+        key = "build_new_set/filtered-add#%d" % n
+        if filt is None:
+            rep.violation("R22-dedupe-pair", key, "a start situation is added without asking the (situation, distance) filter: duplicates enter the set (the size of a set "
+                          "is no longer bounded by the grammar)", where=a.where(), witness=[a.where()])
+            continue
+        same_sit = strip_casts(f, filt.args[0]) == strip_casts(f, a.args[0])
+        same_dist = strip_int_casts(f, filt.args[1]) == strip_int_casts(f, a.args[1])
+        if same_sit and same_dist:
+            rep.ok("R22-dedupe-pair", key, sample={"filter": filt.where(), "add": a.where()})
+        else:
+            rep.violation("R22-dedupe-pair", key, "the filter is asked about another %s than the one that is added: a situation is dropped because a different one was "
+                          "seen before (sentences rejected), or added twice" % ("situation" if not same_sit else "distance"), where=filt.where(),
+                          witness=[filt.where(), a.where()])
+    rep.floor("R22-dedupe-pair", "filtered additions of start situations", n, 2)
+
+
+def rule_R22_distance_class(ctx, rep, config="c-lib"):
+    rep.rule("R22-class", "expand_new_start_set: a situation obtained by moving the dot of new_sits[i] over a nullable symbol is added as an *initial* (zero-distance) "
+                          "situation only when new_sits[i] is itself in the zero-distance class, i >= n_all_dists of the new core (situations with a distance are advanced "
+                          "by add_derived_nonstart_sits, which keeps the parent's distance)")
+    from .r21 import _rel
+    p = ctx.prog(config)
+    f = p.fn("expand_new_start_set")
+    rep.cover(p, [f.name])
+    n = 0
+    for a in f.calls():
+        if a.callee != "set_new_add_initial_sit":
+            continue
+        c = f.inst(strip_casts(f, a.args[0]))
+        if c is None or not c.is_call() or c.callee != "sit_create":
+            continue
+        S = _sit_of_field(f, c.args[0], "sit.rule")
+        P = _sit_of_field(f, c.args[1], "sit.pos")
+        if S is None or P is None or S != P or const_int(c.args[1]) is not None:
+            continue       # a predicted rule (pos 0), not a dot move
+        # the index of the source situation
+        src = f.insts.get(S[1]) if S[0] == "val" else None
+        idx = None
+        if src is not None and src.op == "load":
+            pa = resolve_addr(f, src.ops[0])
+            b = loaded_from(f, pa.root[1]) if pa.root[0] == "val" else None
+            if b is not None and b.root == ("g", "new_sits") and pa.steps:
+                idx = strip_int_casts(f, pa.steps[-1][1])
+        if idx is None:
+            raise AnalysisBroken("R22-class: the situation whose dot is moved at %s is not an element of new_sits" % c.where())
+        n += 1
+        key = "expand_new_start_set/nullable-skip-class#%d" % n
+        found = None
+        allc = []
+        for (cc, pol) in _controlling_conditions(f, a.block.name):
+            r = _rel(cc, pol)
+            if r is None:
+                continue
+            if strip_int_casts(f, cc.ops[0]) == idx:
+                b = loaded_from(f, cc.ops[1])
+                allc.append((r, (b.last_field() if b is not None and b.steps else (b.root[1] if b is not None and b.root[0] == "g" else None)), cc))
+        good = [x for x in allc if x[0] == "ge" and x[1] == "set_core.n_all_dists"]
+        lower = [x for x in allc if x[0] in ("ge", "gt")]
+        found = good[0] if good else (lower[0] if lower else None)
+        if good:
+            rep.ok("R22-class", key, sample={"call": a.where(), "guard": found[2].where()})
+        else:
+            rep.violation("R22-class", key, "the dot of new_sits[i] is moved over a nullable symbol into an initial (zero-distance) situation %s: a situation that carries "
+                          "its parent's distance also yields a zero-distance copy -- a completed item with the wrong origin (a second, spurious derivation: the "
+                          "ambiguity flag is set for unambiguous input)" % (
+                              ("under `i %s %s' instead of `i >= n_all_dists'" % ({"ge": ">=", "lt": "<", "gt": ">", "le": "<="}[found[0]], found[1])) if found
+                              else "without a test of the class of i"), where=a.where(), witness=[a.where()])
+    rep.floor("R22-class", "nullable skips into an initial situation", n, 1)
